@@ -59,9 +59,10 @@ prop('C06', COMMON +
      'unconditionally inserts into the set has_errors() tests. INT-RANGE-REPORT: zone abstract interpretation of the '
      'lexer\'s integer-literal post-processing - an integer token is produced only on paths that reported an error or '
      'where the parsed value is proven to fit (checked per incoming path, because the join loses the disjunction). '
-     'SCOPE-IFLET-ELSE: the scope analysis visits the else-branch of an if-let at the scope depth of the whole '
+     'ASSIGN-ALL-PATHS: the checker functions typing a binary operator, a unary operator and an if-else perform an '
+     'assignability check on every path. SCOPE-IFLET-ELSE: the scope analysis visits the else-branch of an if-let at the scope depth of the whole '
      'expression (pattern bindings are not visible there).',
-     [gate.run_gate, gate.run_errset, lex_bounds.run_int_range, scope.run_iflet_else, TI.make(['T-chk', 'T-ssa'])])
+     [gate.run_gate, gate.run_errset, gate.run_assign_all_paths, lex_bounds.run_int_range, scope.run_iflet_else, TI.make(['T-chk', 'T-ssa'])])
 
 prop('C08', COMMON +
      'TRAVERSAL/SIBLING: the pretty-printer reads every expression, pattern, annotation, identifier and literal slot of '
@@ -139,7 +140,7 @@ prop('C03', COMMON +
      'truncate(16) and by a test excluding the one-element case - the shapes the checker panics on), TS-SPLICE (no '
      'unsanitised string content between the backticks of an emitted template literal). Does not decide '
      'type soundness of the checker or validity of the emitted module.',
-     [const_arith.run, shape.run_shape, backend.run_ts_splice],
+     [const_arith.run, shape.run_shape, backend.run_ts_splice, gate.run_assign_all_paths],
      ['A-05.1: parenthesised lists reaching a Tuple construction are non-empty (the first element is parsed before)'])
 
 prop('C04', COMMON +
